@@ -8,17 +8,18 @@ use yuvxyb::{ColorPrimaries as CP, LinearRgb, Rgb, TransferCharacteristic as TC}
 /// P -> BT709 (`to709 = true`) or BT709 -> P through the public API with transfer = Linear.
 pub fn convert(p: CP, to709: bool, px: &[[f32; 3]]) -> Result<Vec<[f32; 3]>, String> {
     let len = px.len();
+    let (w, h) = crate::img::shape_of(len);
     if to709 {
-        let rgb = Rgb::new(px.to_vec(), len, 1, TC::Linear, p).map_err(|e| format!("{e:?}"))?;
+        let rgb = Rgb::new(px.to_vec(), w, h, TC::Linear, p).map_err(|e| format!("{e:?}"))?;
         let lin = guarded(|| LinearRgb::try_from(rgb))?.map_err(|e| format!("conversion error {e:?}"))?;
-        if lin.width() != len || lin.height() != 1 {
+        if lin.width() != w || lin.height() != h {
             return Err("dims changed".into());
         }
         Ok(lin.data().to_vec())
     } else {
-        let lin = LinearRgb::new(px.to_vec(), len, 1).map_err(|e| format!("{e:?}"))?;
+        let lin = LinearRgb::new(px.to_vec(), w, h).map_err(|e| format!("{e:?}"))?;
         let rgb = guarded(|| Rgb::try_from((lin, TC::Linear, p)))?.map_err(|e| format!("conversion error {e:?}"))?;
-        if rgb.width() != len || rgb.height() != 1 || rgb.primaries() != p || rgb.transfer() != TC::Linear {
+        if rgb.width() != w || rgb.height() != h || rgb.primaries() != p || rgb.transfer() != TC::Linear {
             return Err("dims or labels changed".into());
         }
         Ok(rgb.data().to_vec())
